@@ -40,7 +40,7 @@ type propDef struct {
 	ID        string
 	Harness   string   // "lib" or app name
 	Also      []string // further harness binaries that serve the same property
-	Quick     int    // runs
+	Quick     int      // runs
 	Thorough  int
 	Batch     int
 	QuickWall int // seconds (simulation phase)
@@ -414,34 +414,35 @@ type violation struct {
 }
 
 type summary struct {
-	Prop        string             `json:"prop"`
-	Runs        int                `json:"runs"`
-	Skipped     int                `json:"skipped"`
-	Abandoned   int                `json:"abandoned"`
-	Nontrivial  int                `json:"nontrivial"`
-	Steps       int64              `json:"steps"`
-	Switches    int64              `json:"switches"`
-	SimTimeNs   int64              `json:"sim_time_ns"`
-	GNSSWeeks   float64            `json:"gnss_weeks"`
-	Probes      map[string]int     `json:"probes"`
-	Faults      map[string]int     `json:"faults"`
-	FaultRuns   map[string]int     `json:"fault_runs"`
-	Strategies  map[string]int     `json:"strategies"`
-	Verdicts    map[string]int     `json:"verdicts"`
-	Samples     []json.RawMessage  `json:"samples"`
-	Violations  []violation        `json:"violations"`
-	ClassCounts map[string]int     `json:"class_counts"`
-	Infra       []string           `json:"infra"`
-	NonDet      []string           `json:"nondeterminism"`
-	NonDetSelect   int      `json:"nondeterminism_runtime_select"`
-	NonDetSelectAt []string `json:"nondeterminism_runtime_select_at"`
-	DetChecked  int                `json:"determinism_checked"`
-	DetFailed   int                `json:"determinism_failed"`
-	MaxSteps    int                `json:"max_steps"`
-	WallS       float64            `json:"wall_s"`
-	HashFile    string             `json:"hash_file"`
-	DistinctSch int                `json:"distinct_schedules"`
-	Extra       map[string]float64 `json:"extra"`
+	Prop           string             `json:"prop"`
+	Runs           int                `json:"runs"`
+	Skipped        int                `json:"skipped"`
+	Abandoned      int                `json:"abandoned"`
+	Nontrivial     int                `json:"nontrivial"`
+	Steps          int64              `json:"steps"`
+	Switches       int64              `json:"switches"`
+	SimTimeNs      int64              `json:"sim_time_ns"`
+	GNSSWeeks      float64            `json:"gnss_weeks"`
+	Probes         map[string]int     `json:"probes"`
+	Faults         map[string]int     `json:"faults"`
+	FaultRuns      map[string]int     `json:"fault_runs"`
+	Strategies     map[string]int     `json:"strategies"`
+	Verdicts       map[string]int     `json:"verdicts"`
+	Samples        []json.RawMessage  `json:"samples"`
+	Violations     []violation        `json:"violations"`
+	ClassCounts    map[string]int     `json:"class_counts"`
+	Infra          []string           `json:"infra"`
+	NonDet         []string           `json:"nondeterminism"`
+	NonDetSelect   int                `json:"nondeterminism_runtime_select"`
+	NonDetSelectAt []string           `json:"nondeterminism_runtime_select_at"`
+	NonDetHistory  int                `json:"nondeterminism_process_history"`
+	DetChecked     int                `json:"determinism_checked"`
+	DetFailed      int                `json:"determinism_failed"`
+	MaxSteps       int                `json:"max_steps"`
+	WallS          float64            `json:"wall_s"`
+	HashFile       string             `json:"hash_file"`
+	DistinctSch    int                `json:"distinct_schedules"`
+	Extra          map[string]float64 `json:"extra"`
 }
 
 type replayFile struct {
@@ -654,10 +655,10 @@ func (p *propDef) harnessList() []string { return append([]string{p.Harness}, p.
 
 type batchResult struct {
 	harness string
-	sum    *summary
-	exit   int
-	stderr string
-	dump   string
+	sum     *summary
+	exit    int
+	stderr  string
+	dump    string
 }
 
 // runWorkers executes `total` runs in batches over W parallel worker processes.
@@ -858,6 +859,7 @@ func runCheck(id, tier string) int {
 		agg.DetChecked += s.DetChecked
 		agg.DetFailed += s.DetFailed
 		agg.NonDetSelect += s.NonDetSelect
+		agg.NonDetHistory += s.NonDetHistory
 		if len(agg.NonDetSelectAt) < 5 {
 			agg.NonDetSelectAt = append(agg.NonDetSelectAt, s.NonDetSelectAt...)
 		}
@@ -1081,6 +1083,9 @@ func runCheck(id, tier string) int {
 		}
 		die(2, "nondeterministic runs in check %s (not a property verdict)", id)
 	}
+	if agg.NonDetHistory > 0 {
+		fmt.Printf("note: %d of %d determinism spot checks diverged inside a long-lived worker but not between two fresh processes: the code under test keeps process-global state that changes its execution path (judged by the property's oracles like any other run)\n", agg.NonDetHistory, agg.DetChecked)
+	}
 	if agg.NonDetSelect > 0 {
 		fmt.Printf("note: %d of %d determinism spot checks diverged at a select statement whose ready cases the Go runtime chooses between (e.g. %v): legal executions, outside the tape; such runs may not replay\n", agg.NonDetSelect, agg.DetChecked, agg.NonDetSelectAt)
 	}
@@ -1109,36 +1114,36 @@ func runCheck(id, tier string) int {
 	}
 	runsPerHour := float64(agg.Runs) / simWall * 3600
 	cov := map[string]any{
-		"evaluations":                   agg.Runs,
-		"distinct_nontrivial":           len(pairs),
-		"rule":                          p.Rule,
-		"samples":                       samples,
-		"simulated_runs":                agg.Runs,
-		"runs_skipped_by_generator":     agg.Skipped,
-		"runs_abandoned_after_75s_real": agg.Abandoned,
-		"runs_per_hour":                 int64(runsPerHour),
-		"seeds_per_hour":                int64(runsPerHour),
-		"scheduling_steps":              agg.Steps,
-		"context_switches":              agg.Switches,
-		"max_steps_in_one_run":          agg.MaxSteps,
-		"simulated_time_s":              float64(agg.SimTimeNs) / 1e9,
-		"gnss_calendar_weeks_simulated": agg.GNSSWeeks,
-		"fault_kinds_fired":             agg.Faults,
-		"runs_with_fault_kind":          agg.FaultRuns,
-		"strategy_histogram":            agg.Strategies,
-		"run_verdicts":                  agg.Verdicts,
-		"distinct_event_logs":           agg.DistinctSch,
-		"reach_probes":                  agg.Probes,
+		"evaluations":                    agg.Runs,
+		"distinct_nontrivial":            len(pairs),
+		"rule":                           p.Rule,
+		"samples":                        samples,
+		"simulated_runs":                 agg.Runs,
+		"runs_skipped_by_generator":      agg.Skipped,
+		"runs_abandoned_after_75s_real":  agg.Abandoned,
+		"runs_per_hour":                  int64(runsPerHour),
+		"seeds_per_hour":                 int64(runsPerHour),
+		"scheduling_steps":               agg.Steps,
+		"context_switches":               agg.Switches,
+		"max_steps_in_one_run":           agg.MaxSteps,
+		"simulated_time_s":               float64(agg.SimTimeNs) / 1e9,
+		"gnss_calendar_weeks_simulated":  agg.GNSSWeeks,
+		"fault_kinds_fired":              agg.Faults,
+		"runs_with_fault_kind":           agg.FaultRuns,
+		"strategy_histogram":             agg.Strategies,
+		"run_verdicts":                   agg.Verdicts,
+		"distinct_event_logs":            agg.DistinctSch,
+		"reach_probes":                   agg.Probes,
 		"reach_probes_required_but_zero": missing,
-		"determinism_spot_checks":       map[string]int{"reruns": agg.DetChecked, "diverged": agg.DetFailed, "diverged_at_a_select_decided_by_the_go_runtime": agg.NonDetSelect},
-		"instrumentation":               map[string]any{"files": binfo.Files, "sites": binfo.Counts, "skipped": binfo.Skipped, "degraded": binfo.Degraded},
-		"components_real":               p.Real,
-		"components_simulated_or_stub":  p.Stub,
-		"violation_classes_seen":        agg.ClassCounts,
-		"known_findings_matched":        knownHit,
-		"tree_fingerprint":              binfo.Fingerprint,
-		"workers":                       envOr("VSIM_WORKERS", "16"),
-		"simulation_wall_s":             simWall,
+		"determinism_spot_checks":        map[string]int{"reruns": agg.DetChecked, "diverged": agg.DetFailed, "diverged_at_a_select_decided_by_the_go_runtime": agg.NonDetSelect, "diverged_because_of_process_global_state_of_the_code_under_test": agg.NonDetHistory},
+		"instrumentation":                map[string]any{"files": binfo.Files, "sites": binfo.Counts, "skipped": binfo.Skipped, "degraded": binfo.Degraded},
+		"components_real":                p.Real,
+		"components_simulated_or_stub":   p.Stub,
+		"violation_classes_seen":         agg.ClassCounts,
+		"known_findings_matched":         knownHit,
+		"tree_fingerprint":               binfo.Fingerprint,
+		"workers":                        envOr("VSIM_WORKERS", "16"),
+		"simulation_wall_s":              simWall,
 	}
 	if race != nil {
 		cov["race_lane"] = map[string]any{"kind": "auxiliary runtime monitoring, not simulation: un-gated goroutines in a -race build; sound for the 'no data race' clause only",
